@@ -132,3 +132,8 @@ MUTANTS = [
             }
         } while(0);
     }""")]
+
+
+# SESSION7 additions to the claim (clauses added in DESIGN section 12)
+CLAIM['technique'] += '; part-remaining invariant of the multipart data state (linear values + Fourier-Motzkin); purity of the range computation'
+CLAIM['text'] += ' C04-g: the data state of the part scanner never holds an exhausted part, so a complete multipart answer is accepted wherever the transport cuts it. C04-c (extended): zck_get_missing_range keeps no cursor in the context.'
